@@ -20,6 +20,15 @@ import (
 	"time"
 
 	"github.com/arnodel/golua/code"
+	"github.com/arnodel/golua/lib"
+	"github.com/arnodel/golua/lib/base"
+	"github.com/arnodel/golua/lib/coroutine"
+	"github.com/arnodel/golua/lib/mathlib"
+	"github.com/arnodel/golua/lib/packagelib"
+	"github.com/arnodel/golua/lib/runtimelib"
+	"github.com/arnodel/golua/lib/stringlib"
+	"github.com/arnodel/golua/lib/tablelib"
+	"github.com/arnodel/golua/lib/utf8lib"
 	rt "github.com/arnodel/golua/runtime"
 
 	"verif/engine/host"
@@ -37,6 +46,7 @@ type Job struct {
 	ArgN    int    `json:"argn,omitempty"`
 	Epi     bool   `json:"epi"`
 	Measure bool   `json:"measure"` // report the TotalAlloc delta around the call
+	Full    bool   `json:"full"`    // load every library (io, os, debug, golib too)
 	WatchMs int    `json:"watchms,omitempty"`
 }
 
@@ -65,11 +75,28 @@ type machine struct {
 	*host.Machine
 	markers []string
 	kept    []*rt.Thread
+	cleanup func()
 }
 
-func newMachine() *machine {
-	m := &machine{Machine: host.NewMachine(false)}
+func (m *machine) Close() {
+	m.Machine.Close()
+	if m.cleanup != nil {
+		m.cleanup()
+	}
+}
+
+// newMachine: full = every library as lib.LoadAll does; otherwise the
+// libraries the sweep programs use (iolib allocates three 64 KB buffers and
+// fsyncs stdout on close, which dominates the cost of a run).
+func newMachine(full bool) *machine {
+	m := &machine{Machine: host.NewMachine(true)}
 	r := m.R
+	if full {
+		m.cleanup = lib.LoadAll(r)
+	} else {
+		m.cleanup = lib.LoadLibs(r, base.LibLoader, packagelib.LibLoader, coroutine.LibLoader, stringlib.LibLoader,
+			tablelib.LibLoader, mathlib.LibLoader, utf8lib.LibLoader, runtimelib.LibLoader)
+	}
 	env := r.GlobalEnv()
 	caught := r.SetEnvGoFunc(env, "caught", func(t *rt.Thread, c *rt.GoCont) (rt.Cont, error) {
 		k := "?"
@@ -255,7 +282,7 @@ func runEpilogue(m *machine) (string, uint64) {
 
 // execJob runs a job in this process.
 func execJob(j *Job) (res Res) {
-	m := newMachine()
+	m := newMachine(j.Full)
 	defer func() {
 		if p := recover(); p != nil {
 			res.Status = "gopanic"
@@ -326,7 +353,7 @@ func initEpi() {
 	if epiUsed != 0 {
 		return
 	}
-	m := newMachine()
+	m := newMachine(false)
 	_, epiUsed = runEpilogue(m)
 	m.Close()
 }
